@@ -38,7 +38,7 @@ def scenario(tier):
         pl = [p for p in b.walk_files("PL") if posixpath.basename(p).startswith("packinglist_")]
         b.require(len(pl) == 1, "setup-flatten", str(pl))
         roots = sorted(set(layout + ["R"]))
-        pre = sym.choose("tree_state", ["unchanged", "altered", "deleted", "added", "tampered", "leftover-tmp", "renamed-case-only"])
+        pre = sym.choose("tree_state", ["unchanged", "altered", "deleted", "added", "tampered", "leftover-tmp", "renamed-case-only", "link-to-a-history-outside"])
         if pre == "altered":
             b.alter("R/A/AA/aa1.txt", 33)
         elif pre == "deleted":
@@ -48,12 +48,21 @@ def scenario(tier):
         elif pre == "leftover-tmp":
             # what an interrupted create leaves behind (C15): nobody but a create writing that very name may touch it
             b.mkfile("R/ascmhl/0009_R_2020-01-02_030405Z.mhl.tmp", 77)
+        elif pre == "link-to-a-history-outside":
+            # a symbolic link inside the tree that points to a folder with a history of its own outside the root: that history is not
+            # part of the tree, no command started on the root may write there
+            b.mkfile("EXT/card/h.txt", 20)
+            r = b.run("create", root="EXT/card", h=["md5"])
+            b.require(r.exit == 0, "setup-create", str(r))
+            b.symlink("EXT/card", "R/A/linked card")
         elif pre == "renamed-case-only":
             b.rename("R/B/b 1.txt", "R/B/B 1.TXT")
         elif pre == "tampered":
             b.alter(posixpath.join("R/ascmhl", b.manifest_names("R")[0]), 2)
         cmd = sym.choose("command", READONLY + ["flatten", "create", "create-n", "create-sf", "create-sf-neighbour", "create-dr", "create-new-root",
                                                 "create-ignoring-child"])
+        if pre == "link-to-a-history-outside" and cmd in ("create", "create-dr", "create-new-root", "create-ignoring-child", "verify-dh", "verify-dh-co", "verify-dh-ro"):
+            sym.assume(False)  # (directory hashes over a tree with a linked folder: the tool itself gives up with an internal error - outside the properties)
         before = b.snapshot("")
         tag = "%s on %s tree (nested: %s)" % (cmd, pre, layout)
         b.note(tag)
